@@ -410,6 +410,22 @@ func (w *World) WaitIdle(site string) {
 	w.park(t, Blocked, site, "idle")
 }
 
+// Sleep parks the caller for d of simulated time.
+//
+//go:norace
+func (w *World) Sleep(d time.Duration) {
+	if w.dead {
+		runtime.Goexit()
+	}
+	t := w.Me()
+	if t == nil {
+		time.Sleep(d)
+		return
+	}
+	w.After(d, func() { w.Wake(t) })
+	w.park(t, Blocked, "sleep", "timer")
+}
+
 // Wake makes a blocked task runnable (it runs when the scheduler picks it).
 //
 //go:norace
